@@ -6,6 +6,8 @@ package main
 import (
 	"bytes"
 	"fmt"
+	"math"
+	"strconv"
 	"strings"
 
 	"github.com/mikefarah/yq/v4/pkg/yqlib"
@@ -125,6 +127,14 @@ func init() {
 		var buf bytes.Buffer
 		err = enc.Encode(&buf, n)
 		return Resp{"out_b64": b64(buf.String())}, err
+	})
+	// c06pf: {text|text_b64} -> {bits: decimal uint64 of strconv.ParseFloat(text, 64)} or err
+	register("c06pf", func(r Req) (Resp, error) {
+		f, err := strconv.ParseFloat(r.Text("text"), 64)
+		if err != nil {
+			return nil, err
+		}
+		return Resp{"bits": strconv.FormatUint(math.Float64bits(f), 10), "v": fmt.Sprintf("%v", f)}, nil
 	})
 	// c06dec: {input|input_b64} -> {out_b64: dump of the first document's node tree, floats: [...]}
 	register("c06dec", func(r Req) (Resp, error) {
